@@ -114,7 +114,13 @@ type outcome struct {
 
 	errWrapOnly bool // TotalAlloc above the bound, but only through error-message construction
 	errWrapNote string
+
+	fpTag string    // argument class appended to panic fingerprints (lenarg family), else ""
+	extra []verdict // refuting observations made inside the case closure (beyond n, err, panic, alloc, iterations)
 }
+
+// extraVerdicts is filled by case closures that check more than the returned (n, err); call() moves it into the outcome.
+var extraVerdicts []verdict
 
 const hivePrefix = "github.com/iotaledger/hive.go/"
 
@@ -200,6 +206,10 @@ type iterBomb struct{}
 var iterLimit = 1 << 62
 
 func countDecode(counter *int) {
+	if concMode { // concurrent family: the per-call iteration rule is not applied, only an atomic total is kept
+		concElemDecodes.Add(1)
+		return
+	}
 	*counter++
 	if elemDecodes+objDecodes > iterLimit {
 		panic(iterBomb{})
@@ -213,6 +223,7 @@ func call(o *outcome, l int, f func() (int, error)) {
 	objDecodes = 0
 	validatorCalls = 0
 	iterLimit = 8*l + 4096
+	extraVerdicts = nil
 	runtime.ReadMemStats(&m0)
 	func() {
 		defer func() {
@@ -232,6 +243,7 @@ func call(o *outcome, l int, f func() (int, error)) {
 	o.alloc = m1.TotalAlloc - m0.TotalAlloc
 	o.iters = elemDecodes + objDecodes
 	iterLimit = 1 << 62
+	o.extra, extraVerdicts = extraVerdicts, nil
 }
 
 // allocProfile is the exact per-site account of one re-run of a call (MemProfileRate=1).
@@ -378,6 +390,13 @@ func (r *runner) exec(cs *Case) (outcome, func() (int, error)) {
 		}
 	case "prim":
 		o.entry = "Deserializer." + cs.Tgt
+		if isLenarg(cs) {
+			// the argument class distinguishes defects only where the argument is the hostile part
+			if cl := lenargClass(cs); cl == "length-beyond-input" {
+				o.fpTag = "[" + cl + "]"
+			}
+			o.entry = "Deserializer." + strings.TrimPrefix(cs.Tgt, lenargPrefix) + o.fpTag
+		}
 		f = primFunc(cs, in)
 	case "stream":
 		o.entry = "stream." + cs.Tgt
@@ -406,7 +425,7 @@ func judge(cs *Case, o *outcome, f func() (int, error)) []verdict {
 	var vs []verdict
 	l := len(cs.input())
 	if o.panicked {
-		vs = append(vs, verdict{"panic:" + o.panicFn + ":" + panicClass(o.panicMsg),
+		vs = append(vs, verdict{"panic:" + o.panicFn + ":" + panicClass(o.panicMsg) + o.fpTag,
 			fmt.Sprintf("%s into %s (validation=%v, %s, %d input bytes) panicked in %s: %s", o.entry, cs.Tgt, cs.Val, cs.Org, l, o.panicFn, o.panicMsg)})
 	}
 	if !o.panicked && o.n != -1 && (o.n < 0 || o.n > l) {
@@ -430,6 +449,13 @@ func judge(cs *Case, o *outcome, f func() (int, error)) []verdict {
 			o.errWrapOnly = true
 			o.errWrapNote = fmt.Sprintf("%s into %s (%s, %d input bytes) allocated %d bytes, of which %d while building nested error messages and %d elsewhere (bound %d): not counted, the growth is quadratic in the input-bounded nesting depth, not driven by a length field", o.entry, cs.Tgt, cs.Org, l, o.alloc, pr.errBytes, pr.nonErr, bound)
 		}
+	}
+	vs = append(vs, o.extra...)
+	if isLenarg(cs) && param(cs, 2) < 0 && len(vs) > 0 {
+		// one defect class, whatever the symptom (negative offset reported by Done, panic in the call or in a later read)
+		op := strings.TrimPrefix(cs.Tgt, lenargPrefix)
+		what := vs[0].what
+		vs = []verdict{{"negative-length:Deserializer." + op, fmt.Sprintf("negative length/bound argument (%d) at offset %d of %d input bytes: %s", param(cs, 2), param(cs, 0), l, what)}}
 	}
 	if o.iters > l+1 {
 		vs = append(vs, verdict{"iterations:" + o.entry,
